@@ -74,7 +74,7 @@ func (v *Variant) Desc() string {
 // ClassKey is the canonical class of the variant: the classes of its changed headers.
 func (v *Variant) ClassKey() string {
 	if len(v.Sites) == 0 {
-		return "original(" + v.Fx.Name + ")"
+		return "original"
 	}
 	p := make([]string, len(v.Sites))
 	for i, s := range v.Sites {
@@ -147,6 +147,15 @@ type fxPlan struct {
 // newPlan: spineTx = number of leading transactions whose spine takes part in d=2;
 // d1Spine = restrict the d=1 sites of this fixture to its spine (used in the quick tier for
 // the large harness-built blocks, whose inner content repeats that of the real fixtures).
+// d1Shallow = leave out of d=1 the headers strictly inside a header / output / auxiliary
+// data / datum / redeemer data / script item (quick tier, for the three mid-era fixtures;
+// the same content classes stay fully enumerated in the other fixtures).
+var d1Shallow = map[string]bool{}
+
+var deepRoles = map[string]bool{
+	"in-header": true, "in-output": true, "in-aux-value": true, "in-datum": true, "in-redeemer-data": true, "in-script": true,
+}
+
 func newPlan(fx *space.Fixture, spineTx, repeatMax int, d1Spine bool) (*fxPlan, error) {
 	orig, err := space.Parse(fx.Cbor)
 	if err != nil {
@@ -155,6 +164,9 @@ func newPlan(fx *space.Fixture, spineTx, repeatMax int, d1Spine bool) (*fxPlan, 
 	p := &fxPlan{fx: fx, orig: orig}
 	p.filter = func(l *Layout, root *space.Node) func(n *space.Node, path []int) bool {
 		if l.Family != "ebb" {
+			if d1Shallow[fx.Name] {
+				return func(n *space.Node, path []int) bool { return !deepRoles[l.RoleAt(root, path)] }
+			}
 			return nil
 		}
 		// 648 kB EBB: headers at nesting depth <= 3, and of its stakeholder key list only
@@ -207,6 +219,9 @@ func newPlan(fx *space.Fixture, spineTx, repeatMax int, d1Spine bool) (*fxPlan, 
 			}
 		}
 		seenPer := map[string]int{}
+		if fx.Type >= TxBase {
+			return func(n *space.Node, path []int) bool { return false } // stand-alone artefacts: d=1 only
+		}
 		return func(n *space.Node, path []int) bool {
 			r, ok := l.roles[n]
 			if !ok {
